@@ -179,7 +179,8 @@ async fn fault_enum() {
 // exactly the acknowledged commits.  (Found F30: an oversized batch reached the WAL, poisoned the fresh memtable and
 // made the store unopenable.)
 // Bound (stated): memtable size 64 KiB; one transaction of 1 or 3 values of total size
-// {1/2, 0.9, 1, 1.1, 2, 8} x memtable size, placed first / in the middle of 4 small commits; flush_on_close on / off.
+// {1/2, 0.9, 1, 1.1, 2, 8} x memtable size, or of 200 / 1300 one-byte values (few bytes, many skiplist nodes),
+// placed first / in the middle of 4 small commits; flush_on_close on / off.
 #[tokio::test(flavor = "multi_thread", worker_threads = 2)]
 async fn oversize_enum() {
 	let _serial = SERIAL.lock().unwrap_or_else(|e| e.into_inner());
@@ -189,7 +190,10 @@ async fn oversize_enum() {
 	let mut failures: Vec<String> = Vec::new();
 	let mut samples: Vec<String> = Vec::new();
 	for &tenths in &[5usize, 9, 10, 11, 20, 80] {
-		for &nvals in &[1usize, 3] {
+		for &nvals in &[1usize, 3, 200, 1300] {
+			if nvals >= 100 && tenths != 5 {
+				continue; // the many-tiny-writes shapes do not depend on the byte total
+			}
 			for &pos in &[0usize, 2] {
 				for &flush_on_close in &[true, false] {
 					cases += 1;
@@ -213,7 +217,12 @@ async fn oversize_enum() {
 						let mut keys: Vec<(Vec<u8>, usize)> = Vec::new();
 						if step == pos {
 							for j in 0..nvals {
-								keys.push((format!("big{j}").into_bytes(), total / nvals));
+								if nvals >= 100 {
+									// many tiny writes: the arena cost is the per-entry node, not the bytes
+									keys.push((format!("t{j:04}").into_bytes(), 1));
+								} else {
+									keys.push((format!("big{j}").into_bytes(), total / nvals));
+								}
 							}
 						} else {
 							keys.push((format!("s{step}").into_bytes(), 10));
